@@ -46,8 +46,9 @@ def scenarios(tier):
                             max_states=60000 if q else 2000000))
         out.append(Scenario("c02-clear" + tag, World, dict(base, regions=["R", "D"]), OUT + COMMON,
                             max_states=60000 if q else 2000000))
-        out.append(Scenario("c02-clear-axis" + tag, World, dict(base, regions=["R"], guard=stays_clear, key_depth=False),
-                            [("TRAVEL", "O1"), ("TRAVEL", "O2"), ("PRINT", "O3"), ("TRAVEL", "N"), ("RETRACT",),
+        out.append(Scenario("c02-clear-axis" + tag, World, dict(base, regions=["R"], guard=stays_clear, key_depth=False, clear_margin=0.001),
+                            [("TRAVEL", "O1"), ("TRAVEL", "O2"), ("PRINT", "O3"), ("TRAVEL", "N"), ("PRINT", "Eps"), ("TRAVEL", "Ngo"),
+                             ("RETRACT",),
                              ("RECOVER",), ("TRACKPROBE",)] + AXIS,
                             max_states=60000 if q else 2000000,
                             note="single-axis moves, the bed origin (coordinates exactly 0) and disable/enable, every "
